@@ -138,6 +138,23 @@ func freePort() int {
 	}
 }
 
+// listenHost remembers under which host a listen port was configured ("" = none), so that whoever connects to it
+// uses an address the listener can be reached at.
+var listenHost sync.Map
+
+var v6Once sync.Once
+var v6OK bool
+
+func hasV6Loopback() bool {
+	v6Once.Do(func() {
+		if ln, err := net.Listen("tcp", "[::1]:0"); err == nil {
+			_ = ln.Close()
+			v6OK = true
+		}
+	})
+	return v6OK
+}
+
 var svcURLs = []string{"tcp://:8080", "udp://:53", "tcp://:22", "http://:80", "https://:443"}
 
 func genConfig(rng *rand.Rand, idx int, api bool, connectTo int, stateDir string, universe string, secret bool, fixedPorts []int) (config.Store, cfgDesc, []int) {
@@ -193,10 +210,34 @@ func genConfig(rng *rand.Rand, idx int, api bool, connectTo int, stateDir string
 			p = freePort()
 		}
 		ports = append(ports, p)
-		st.Router.Listen = append(st.Router.Listen, fmt.Sprintf("tcp:%d", p))
+		// every way of naming a free loopback port: no host (all interfaces), the IPv4 loopback, the IPv6 loopback
+		host := ""
+		switch rng.Intn(4) {
+		case 0:
+			host = "127.0.0.1"
+		case 1:
+			if hasV6Loopback() {
+				host = "[::1]"
+			}
+		}
+		if h, ok := listenHost.Load(p); ok && fixedPorts != nil {
+			host = h.(string) // a router that starts again on its port keeps the way it names it: its peers' connect entries stay
+		}
+		listenHost.Store(p, host)
+		if host == "" {
+			st.Router.Listen = append(st.Router.Listen, fmt.Sprintf("tcp:%d", p))
+		} else {
+			st.Router.Listen = append(st.Router.Listen, fmt.Sprintf("tcp://%s:%d", host, p))
+		}
 	}
 	if connectTo != 0 {
-		st.Router.Connect = []string{fmt.Sprintf("tcp://127.0.0.1:%d", connectTo)}
+		host := "127.0.0.1"
+		if h, ok := listenHost.Load(connectTo); ok && h.(string) != "" {
+			host = h.(string)
+		} else if hasV6Loopback() && rng.Intn(3) == 0 {
+			host = "[::1]" // a listener without a host listens on both loopbacks
+		}
+		st.Router.Connect = []string{fmt.Sprintf("tcp://%s:%d", host, connectTo)}
 	}
 	return st, d, ports
 }
